@@ -413,7 +413,8 @@ def ineq_bqm_eval(ctx, r, lines, checks, vt, kind, terms, c, lb, ub, cross, lam,
            'def en(c, x): return c[2] + sum(a*x[v] for v, a in c[0].items()) + sum(q*x[u]*x[v] for (u, v), q in c[1].items())\n'
            'dom = (0, 1) if b.vartype.name == "BINARY" else (-1, 1)\n'
            'vs = sorted({v for v, _ in terms}, key=repr)\n'
-           'feas = lambda x: lb <= sum(a*x[v] for v, a in terms) + c <= ub\n'
+           + ('feas = lambda x: lb <= sum(a*x[v] for v, a in terms) + c <= ub or sum(a*x[v] for v, a in terms) == 0   # cross_zero: "adds zero to the domain of constraint"\n' if cross else
+              'feas = lambda x: lb <= sum(a*x[v] for v, a in terms) + c <= ub\n') +
            'try:\n'
            f'    sl = b.add_linear_inequality_constraint(terms, lam, {label!r}, constant=c, lb=lb, ub=ub, cross_zero={cross})\n'
            'except Exception:\n'
@@ -472,6 +473,19 @@ def ineq_bqm_eval(ctx, r, lines, checks, vt, kind, terms, c, lb, ub, cross, lam,
                     ctx.fail('property', site, cls, f'{vt} terms {terms!r} c={c} lb={lb} ub={ub} lam={lam}: at {x!r} (feasible={feas(x)}) the penalty minimised over slack is {m}',
                              repro=src, detail=dict(slack=repr(sl)))
                     break
+        if cross and vt == 'BINARY' and len(ss) <= 9 and not (kind == 'obj' and dup):
+            # documented: "cross_zero: When True, adds zero to the domain of constraint" -> lb <= sum + c <= ub, or sum == 0
+            for t in itertools.product(dom, repeat=len(vs)):
+                x = dict(zip(vs, t))
+                tot = sum(a * x[v] for v, a in terms)
+                fz = feas(x) or tot == 0
+                m = min(energy(c1, {**x, **dict(zip(ss, s))}) for s in itertools.product(dom, repeat=len(ss)))
+                ctx.tick('ineqbqm:cross:documented-domain')
+                if (m != 0) if fz else (m < lam):
+                    bad = True
+                    ctx.fail('property', site, cls, f'BINARY terms {terms!r} c={c} lb={lb} ub={ub} lam={lam} cross_zero=True: at {x!r} (sum={tot}; in [lb, ub] or 0: {fz}) the penalty minimised over slack is {m}',
+                             repro=src, detail=dict(slack=repr(sl)))
+                    break
         if not sl and not list(b.variables):
             out = 'skip'
         else:
@@ -504,6 +518,9 @@ def ineq_dqm_case(ctx, r, lines, checks):
     if method == 'log10' and r.random() < .5:   # wide ranges so that several digits appear
         terms = [(i, c, a * r.choice([1, 3, 7])) for i, c, a in terms]
     cst = r.randint(-3, 3)
+    force_cross = method != 'log10' and r.random() < .08     # round 7: cross_zero with non-negative biases (judged against the documented domain)
+    if force_cross:
+        terms = [(i, c, abs(a)) for i, c, a in terms]
     tu = sum(a for _, _, a in terms if a > 0); tl = sum(a for _, _, a in terms if a < 0)
     mode = r.random()
     if mode < .15:
@@ -512,7 +529,7 @@ def ineq_dqm_case(ctx, r, lines, checks):
         lb, ub = r.randint(tl - 2, tu + 2) + cst, 2 ** 63 - 1
     else:
         lb = r.randint(tl - 3, tu + 2) + cst; ub = lb + r.choice([0, 1, 2, 3, 5, 7, 9, 10, 12, 15, 21, -1])
-    cross = r.random() < .1
+    cross = r.random() < .1 or force_cross
     lam = r.choice([F(1), F(2), F(1, 2)])
     label = r.choice(['c', 'k0'])
     ineq_dqm_eval(ctx, r, lines, checks, method, ncases, names, d, build, terms, cst, lb, ub, cross, lam, label)
@@ -610,6 +627,20 @@ def ineq_dqm_eval(ctx, r, lines, checks, method, ncases, names, d, build, terms,
                     s_ = dict(zip(names, t))
                     ctx.fail('property', site, cls, f'DQM adjacency before {st0[4]}, terms {call!r} c={cst} lb={lb} ub={ub} lam={lam}: at {s_!r} (sum+c={val(t)}, feasible={f}) the penalty minimised over slack is {m}',
                              repro=src, detail=dict(slack=repr(sl)))
+                    break
+        if cross and sl and method in ('log2', 'linear') and all(a >= 0 for _, _, a in terms) and len(full) <= 60000:
+            # (the equality short-cut, taken when the tightened range is 0, ignores cross_zero in both methods: see D66g; judged only when slack terms were returned)
+            # documented: cross_zero "adds zero to the domain of constraint"; with non-negative biases the DQM construction (extra value ub_c) does exactly that
+            en = dict(zip(full, dqm_energies(d, full)))
+            for t in allc:
+                m = min(en[t + u] for u in itertools.product(*[range(k) for k in sizes])) - e0[t]
+                tot = val(t) - cst
+                f = lb <= val(t) <= ub or tot == 0
+                ctx.tick('ineqdqm:cross:documented-domain (non-negative biases)')
+                if (m != 0) if f else (m < lam):
+                    bad = True
+                    ctx.fail('property', site, cls + ', non-negative biases', f'terms {call!r} c={cst} lb={lb} ub={ub} lam={lam} cross_zero=True: at {dict(zip(names, t))!r} (sum={tot}; in [lb, ub] or 0: {f}) the penalty minimised over slack is {m}',
+                             repro=src.replace('if lb <= val(s) <= ub else', 'if (lb <= val(s) <= ub or val(s) == c) else'), detail=dict(slack=repr(sl)))
                     break
         if not sl and not svars and dqm_state(d) == st0:
             out = 'skip'
@@ -924,6 +955,199 @@ def canon_cqm_result(b, groups, model_line):
     return f"{','.join(lin)};{','.join(quad)};{rat(b.offset)}"
 
 
+
+# ------------------------------------------------------------------------------------ round 7: slack count at the power-of-two boundaries
+
+def covers_exactly(cs, S):
+    """positive integer coefficients whose subset sums are exactly 0..S (sorted prefix rule: every coefficient is at most one
+    more than the sum of the smaller ones, and the total is S) — the definition, independent of model and code"""
+    if any(c < 0 for c in cs):
+        return False
+    reach = 0
+    for c in sorted(c for c in cs if c):      # a zero coefficient (an idle bit) represents nothing new
+        if c > reach + 1:
+            return False
+        reach += c
+    return reach == S
+
+
+def hit(cs, target):
+    """a subset of the coefficient positions summing to `target` (greedy from the largest; valid under the prefix rule)"""
+    pick = [0] * len(cs)
+    for i in sorted(range(len(cs)), key=lambda i: -cs[i]):
+        if 0 < cs[i] <= target:
+            pick[i] = 1
+            target -= cs[i]
+    return pick if target == 0 else None
+
+
+def slack_boundary_cases(ctx, r, lines, checks):
+    """S = 2**k + d, k <= 62, d in {-40 … 1}: the slack terms RETURNED by both inequality methods, the bits of
+    binary_encoding and of cqm_to_bqm's integer substitution must represent exactly 0..S (float floor(log2 S) is k, not k-1, for
+    S just below 2**k from k = 50 on: D65g).  Exact arithmetic: object dtype / the integers carried by labels and slack terms."""
+    from dimod.generators import binary_encoding
+    ds = (-40, -11, -5, -2, -1, 0, 1) if ctx.quick else tuple(range(-40, 2))
+    Ss = sorted({2 ** k + d for k in range(1, 63) for d in ds if 2 ** k + d >= 2 and 2 ** k + d + 8 < 2 ** 63})
+    for S in Ss:
+        k = S.bit_length()
+        near = f'S = 2**{k} - {2 ** k - S}' if 2 ** k - S <= 41 else f'S = 2**{k - 1} + {S - 2 ** (k - 1)}'
+        cls = 'slack range or upper bound just below 2**k, k >= 50' if (S >= 2 ** 49 and 2 ** k - S <= 41) else 'slack range or upper bound near a power of two'
+        # (a) binary_encoding
+        b = binary_encoding('i', S)
+        cs = [u[1] for u in b.variables]
+        ctx.case(('bound:benc', S), nontrivial=True); ctx.tick('boundary:benc' + (':>=2**49' if S >= 2 ** 49 else ''))
+        ok = covers_exactly(cs, S) and all(b.get_linear(u) == float(u[1]) for u in b.variables)
+        if not ok:
+            ctx.fail('property', 'generators.binary_encoding', cls, f'binary_encoding("i", {S}) ({near}): coefficients {sorted(cs)[:2]}…{sorted(cs)[-2:]} (sum {sum(cs)}, min {min(cs)}) do not represent exactly 0..{S}',
+                     repro=HDR + f'from dimod.generators import binary_encoding\nS = {S}\nb = binary_encoding("i", S)\ncs = sorted(u[1] for u in b.variables)\nreach = 0\nfor c in cs:\n    assert 0 <= c <= reach + 1, (c, reach)\n    reach += c\nassert reach == S, (reach - S)\n')
+        lines.append(f'benc {lab("i")} {S}')
+        checks.append(('binary_encoding vs Pen.binaryEncoding', cls, 'ok ' + ','.join(f'{lab(u)}={u[1]}' for u in b.variables), None, not ok))
+        # (b) BQM slack method: lb = 2 <= a + (S+5) b <= S + 2  ->  tightened range S; the violating a=1, b=0 needs slack S + 1
+        for dt in ((object, np.float64) if S < 2 ** 52 else (object,)):
+            bq = dimod.BinaryQuadraticModel('BINARY', dtype=dt)
+            with warnings.catch_warnings():
+                warnings.simplefilter('ignore')
+                sl = bq.add_linear_inequality_constraint([('a', 1), ('b', S + 5)], 1, 'c', lb=2, ub=S + 2)
+            cs = [int(c) for _, c in sl]
+            ctx.case(('bound:bqm', S, dt.__name__), nontrivial=True); ctx.tick('boundary:bqm-slack')
+            ok = covers_exactly(cs, S) and all(isinstance(c, int) for _, c in sl)
+            if not ok:
+                what = f'BQM({dt.__name__}).add_linear_inequality_constraint([("a", 1), ("b", {S + 5})], 1, "c", lb=2, ub={S + 2}) ({near}): returned slack coefficients sum to {sum(cs)} (range {S})'
+                pick = hit(cs, S + 1)
+                if pick is not None and dt is object:
+                    smp = {'a': 1, 'b': 0, **{v: p for (v, _), p in zip(sl, pick)}}
+                    what += f'; at a=1, b=0 (sum 1 < lb 2) with the slack set to {S + 1} the penalty is {bq.energy(smp)}'
+                ctx.fail('property', 'BQM.add_linear_inequality_constraint', cls, what,
+                         repro=HDR + f'S = {S}\nb = dimod.BinaryQuadraticModel("BINARY", dtype=object)\nsl = b.add_linear_inequality_constraint([("a", 1), ("b", S + 5)], 1, "c", lb=2, ub=S + 2)\n'
+                               'assert sum(c for _, c in sl) == S, "the slack reaches %d beyond the range" % (sum(c for _, c in sl) - S)\n')
+            if dt is object:
+                bqm_cs = cs
+        # (c) DQM log2
+        if ctx.quick and S % 3 and S > 100:
+            pass
+        else:
+            dq = dimod.DiscreteQuadraticModel(); dq.add_variable(2, 'a'); dq.add_variable(2, 'b')
+            with warnings.catch_warnings():
+                warnings.simplefilter('ignore')
+                st = dq.add_linear_inequality_constraint([('a', 1, 1), ('b', 1, S + 5)], 1, 'c', lb=2, ub=S + 2, slack_method='log2')
+            cs = [int(t[2]) for t in st]
+            ctx.case(('bound:dqm', S), nontrivial=True); ctx.tick('boundary:dqm-log2')
+            lines.append(f'slack2 {S}')
+            checks.append(('slack coefficients (BQM; DQM log2) vs Pen.slackLog2Bqm / slackLog2Dqm', cls, ','.join(map(str, bqm_cs)) + ';' + ','.join(map(str, cs)), None, not covers_exactly(cs, S) or not covers_exactly(bqm_cs, S)))
+            if not covers_exactly(cs, S):
+                ctx.fail('property', 'DQM.add_linear_inequality_constraint', cls, f'slack_method=log2, terms [("a", 1, 1), ("b", 1, {S + 5})], lb=2, ub={S + 2} ({near}): returned slack values sum to {sum(cs)} (range {S})',
+                         repro=HDR + f'S = {S}\nd = dimod.DiscreteQuadraticModel(); d.add_variable(2, "a"); d.add_variable(2, "b")\nst = d.add_linear_inequality_constraint([("a", 1, 1), ("b", 1, S + 5)], 1, "c", lb=2, ub=S + 2, slack_method="log2")\n'
+                               'assert sum(int(t[2]) for t in st) == S\n')
+        # (d) cqm_to_bqm: Integer('i', upper_bound=S), objective i; every BQM sample must invert into 0..S
+        if S <= 2 ** 53 - 1 and (not ctx.quick or S % 2 or S < 100):
+            cqm = dimod.ConstrainedQuadraticModel(); cqm.set_objective(dimod.Integer('i', upper_bound=S))
+            bq, inv = dimod.cqm_to_bqm(cqm)
+            lo = inv({v: int(bq.get_linear(v) < 0) for v in bq.variables})['i']
+            hi = inv({v: int(bq.get_linear(v) > 0) for v in bq.variables})['i']
+            ctx.case(('bound:cqm', S), nontrivial=True); ctx.tick('boundary:cqm_to_bqm integer')
+            if not (lo == 0 and hi == S):
+                ctx.fail('property', 'cqm_to_bqm', cls, f'Integer("i", upper_bound={S}) ({near}), objective i: the inverter maps BQM samples to i = {lo} and i = {hi}, the domain is 0..{S}',
+                         repro=HDR + f'S = {S}\ncqm = dimod.ConstrainedQuadraticModel(); cqm.set_objective(dimod.Integer("i", upper_bound=S))\nb, inv = dimod.cqm_to_bqm(cqm)\n'
+                               'lo = inv({v: int(b.get_linear(v) < 0) for v in b.variables})["i"]; hi = inv({v: int(b.get_linear(v) > 0) for v in b.variables})["i"]\nassert (lo, hi) == (0, S), (lo, hi)\n')
+
+
+def option_cases(ctx, r):
+    """the options of BQM.add_linear_inequality_constraint judged against their definition (no model line):
+    penalization_method ('unbalanced': energy added = l0*sum - ub_c + l1*(sum - ub_c)**2 as coded, [] returned; unknown: ValueError;
+    wrong multiplier shape: TypeError; both only when the constraint is neither always satisfied nor infeasible), the fractional-data
+    warning, integral floats behaving like ints, huge Python-int bounds as infinity, float('inf') refused."""
+    for _ in range(ctx.scale(120, 1500)):
+        n = r.randint(1, 4)
+        terms = [(f'x{i}', r.choice([-3, -2, -1, 1, 2, 3, 4])) for i in range(n)]
+        tu = sum(a for _, a in terms if a > 0); tl = sum(a for _, a in terms if a < 0)
+        c = r.choice([0, 0, 1, -2]); lb = r.randint(tl - 2, tu + 1) - 0; ub = r.randint(lb - 1, tu + 2)
+        if r.random() < .3:
+            lb = -10 ** r.choice([19, 30])
+        if r.random() < .15:
+            ub = 10 ** r.choice([19, 30])
+        plan = plan_class([a for _, a in terms], c, lb, ub)
+        vs = [v for v, _ in terms]
+        samples = [dict(zip(vs, t)) for t in itertools.product((0, 1), repeat=n)]
+        how = r.choice(['unbalanced', 'unbalanced', 'badmethod', 'scalar-unbalanced', 'floats', 'fractional', 'inf'])
+        ctx.tick(f'option:{how}:{plan.split(":")[0]}')
+        ctx.case(('option', how, repr(terms), c, lb, ub), nontrivial=plan.startswith(('slack', 'equality')))
+        base = HDR + f'terms = {terms!r}\nc, lb, ub = {c}, {lb}, {ub}\nb = dimod.BinaryQuadraticModel("BINARY", dtype=object)\nfor v, _ in terms: b.add_variable(v)\n'
+        b = dimod.BinaryQuadraticModel('BINARY', dtype=object)
+        for v in vs:
+            b.add_variable(v)
+        site = 'BQM.add_linear_inequality_constraint'
+
+        def call(**kw):
+            with warnings.catch_warnings(record=True) as w:
+                warnings.simplefilter('always')
+                try:
+                    return b.add_linear_inequality_constraint(list(terms), kw.pop('lam', 1), 'c', constant=c, lb=lb, ub=ub, **kw), None, [str(x.message) for x in w]
+                except Exception as e:  # noqa
+                    return None, type(e).__name__, [str(x.message) for x in w]
+        ubc = min(tu, ub - c)
+        if how == 'unbalanced':
+            l0, l1 = r.choice([1, 2, 3]), r.choice([1, 2])
+            ret, exc, _w = call(lam=[l0, l1], penalization_method='unbalanced')
+            if plan == 'skip':
+                good = ret == [] and exc is None and b.is_linear() and b.offset == 0 and all(b.get_linear(v) == 0 for v in vs)
+            elif plan == 'infeasible':
+                good = exc == 'ValueError' and b.offset == 0
+            else:
+                good = ret == [] and exc is None and all(b.energy(x) == l0 * sum(a * x[v] for v, a in terms) - ubc + l1 * (sum(a * x[v] for v, a in terms) - ubc) ** 2 for x in samples)
+            if not good:
+                ctx.fail('property', site, "penalization_method='unbalanced'", f'terms {terms!r} c={c} lb={lb} ub={ub} multipliers [{l0}, {l1}] (plan by definition: {plan}): returned {ret!r}, raised {exc}; energies {[b.energy(x) for x in samples][:8]}',
+                         repro=base + f'ret = b.add_linear_inequality_constraint(terms, [{l0}, {l1}], "c", constant=c, lb=lb, ub=ub, penalization_method="unbalanced")\nubc = min(sum(a for _, a in terms if a > 0), ub - c)\n'
+                               f'import itertools\nfor t in itertools.product((0, 1), repeat=len(terms)):\n    x = dict(zip([v for v, _ in terms], t)); s = sum(a * x[v] for v, a in terms)\n    assert ret == [] and b.energy(x) == {l0} * s - ubc + {l1} * (s - ubc) ** 2\n')
+        elif how in ('badmethod', 'scalar-unbalanced'):
+            ret, exc, _w = call(penalization_method='unbalanced' if how == 'scalar-unbalanced' else 'slak')
+            want = {'skip': None, 'infeasible': 'ValueError'}.get(plan, 'TypeError' if how == 'scalar-unbalanced' else 'ValueError')
+            untouched = b.offset == 0 and b.is_linear() and all(b.get_linear(v) == 0 for v in vs) and list(b.variables) == vs
+            if exc != want or not untouched:
+                ctx.fail('property', site, 'penalization_method dispatch', f'terms {terms!r} c={c} lb={lb} ub={ub} ({how}; plan by definition: {plan}): raised {exc}, expected {want}; model untouched: {untouched}',
+                         repro=base + f'try:\n    b.add_linear_inequality_constraint(terms, 1, "c", constant=c, lb=lb, ub=ub, penalization_method={"unbalanced" if how == "scalar-unbalanced" else "slak"!r})\n    e = None\nexcept Exception as ex:\n    e = type(ex).__name__\nassert e == {want!r} and b.offset == 0 and b.is_linear()\n')
+        elif how == 'floats':
+            # integral floats are integers: same slack terms, same model, no warning
+            b2 = dimod.BinaryQuadraticModel('BINARY', dtype=object)
+            for v in vs:
+                b2.add_variable(v)
+            ret, exc, w = call()
+            with warnings.catch_warnings(record=True) as w2:
+                warnings.simplefilter('always')
+                try:
+                    ret2 = b2.add_linear_inequality_constraint([(v, float(a)) for v, a in terms], 1, 'c', constant=float(c), lb=float(lb) if abs(lb) < 2 ** 53 else lb, ub=float(ub) if abs(ub) < 2 ** 53 else ub); exc2 = None
+                except Exception as e:  # noqa
+                    ret2, exc2 = None, type(e).__name__
+            frac = [m for m in [str(x.message) for x in w2] if 'fractional' in m]
+            same = exc == exc2 and (ret is None or [(v, int(a)) for v, a in ret] == [(v, int(a)) for v, a in ret2]) and (exc is not None or coef(b) == coef(b2))
+            if not same or frac or any('fractional' in m for m in w):
+                ctx.fail('property', site, 'integral float data', f'terms {terms!r} c={c} lb={lb} ub={ub}: ints give {ret!r}/{exc}, integral floats give {ret2!r}/{exc2}, fractional-data warning: {bool(frac)}',
+                         repro=base + 'import warnings\nwith warnings.catch_warnings(record=True) as w:\n    warnings.simplefilter("always")\n    try: b.add_linear_inequality_constraint([(v, float(a)) for v, a in terms], 1, "c", constant=float(c), lb=lb, ub=ub)\n    except ValueError: pass\nassert not any("fractional" in str(x.message) for x in w)\n')
+        elif how == 'fractional':
+            which = r.choice(['c', 'bias', 'ub'])
+            t2 = [(v, a + (0.5 if (which == 'bias' and i == 0) else 0)) for i, (v, a) in enumerate(terms)]
+            with warnings.catch_warnings(record=True) as w:
+                warnings.simplefilter('always')
+                try:
+                    b.add_linear_inequality_constraint(t2, 1, 'c', constant=c + (0.5 if which == 'c' else 0), lb=lb, ub=ub + (0.5 if which == 'ub' and abs(ub) < 2 ** 50 else 0))
+                except ValueError:
+                    pass
+            warned = any('fractional' in str(x.message) for x in w)
+            if not warned and not (which == 'ub' and abs(ub) >= 2 ** 50):
+                ctx.fail('property', site, 'fractional data warning', f'terms {t2!r} c={c} lb={lb} ub={ub} with a fractional {which}: no warning about fractional coefficients',
+                         repro=base + 'import warnings\nwith warnings.catch_warnings(record=True) as w:\n    warnings.simplefilter("always")\n    try: b.add_linear_inequality_constraint(terms, 1, "c", constant=c + 0.5, lb=lb, ub=ub)\n    except ValueError: pass\nassert any("fractional" in str(x.message) for x in w)\n')
+        else:
+            # float infinities are not bounds (ints are; the default lb is the int64 minimum): refused before anything is added
+            ret, exc, _w = (lambda: None)(), None, None
+            try:
+                b.add_linear_inequality_constraint(list(terms), 1, 'c', constant=c, lb=-float('inf') if r.random() < .5 else lb, ub=float('inf'))
+                exc = None
+            except Exception as e:  # noqa
+                exc = type(e).__name__
+            untouched = b.offset == 0 and b.is_linear() and list(b.variables) == vs
+            if exc != 'OverflowError' or not untouched:
+                ctx.fail('property', site, 'float infinity as a bound', f'terms {terms!r}: ub=inf raised {exc} (expected the OverflowError of int(inf)), model untouched: {untouched}',
+                         repro=base + 'try:\n    b.add_linear_inequality_constraint(terms, 1, "c", constant=c, lb=lb, ub=float("inf"))\n    e = None\nexcept Exception as ex:\n    e = type(ex).__name__\nassert e == "OverflowError" and b.offset == 0 and b.is_linear()\n')
+
 # ------------------------------------------------------------------------------------ log2 / log10 as computed by the code
 
 def float_log_test(ctx):
@@ -1011,6 +1235,8 @@ def run(ctx):
         ineq_dqm_case(ctx, r, lines, checks)
     ineq_dqm_sweep(ctx, r, lines, checks)
     benc_cases(ctx, r, lines, checks)
+    slack_boundary_cases(ctx, r, lines, checks)
+    option_cases(ctx, r)
     for _ in range(ctx.scale(140, 3000)):
         cqm_case(ctx, r, lines, checks)
     if not float_log_test(ctx):
